@@ -301,7 +301,7 @@ def install_more(I):
                 if I.decide(I.icmp('eq', 8, b, I.load(set_ + j, i8)), 'find_first_of'): return k
         return mask(64)
     M['_ZNKSt7__cxx1112basic_stringIcSt11char_traitsIcESaIcEE13find_first_ofEPKcmm'] = find_first_of
-    for n in ('_ZNSt11range_errorC2EPKc', '_ZNSt11range_errorC1EPKc', '_ZNSt11range_errorD1Ev', '_ZNSt12out_of_rangeC1EPKc', '_ZNSt12out_of_rangeD1Ev', '_ZNSt13runtime_errorC1EPKc', '_ZNSt13runtime_errorD1Ev', '_ZNSt9exceptionD2Ev',
+    for n in ('_ZNSt13runtime_errorC2ERKS_', '_ZNSt13runtime_errorC1ERKS_', '_ZNSt11logic_errorC2ERKS_', '_ZNSt11range_errorC2EPKc', '_ZNSt11range_errorC1EPKc', '_ZNSt11range_errorD1Ev', '_ZNSt12out_of_rangeC1EPKc', '_ZNSt12out_of_rangeD1Ev', '_ZNSt13runtime_errorC1EPKc', '_ZNSt13runtime_errorD1Ev', '_ZNSt9exceptionD2Ev',
               '_ZNSt11logic_errorC2ERKNSt7__cxx1112basic_stringIcSt11char_traitsIcESaIcEEE'):
         M[n] = lambda I_, *a: None
 
